@@ -298,6 +298,7 @@ def explore(
                     status = VerificationStatus.CONFIRMED
                     res.confirmed += 1
                     if len(res.samples) < max_samples:
+                        # (realising the arguments adds solver decisions to the path: only done for the first few paths)
                         res.samples.append(_realize_args(pre_args))
             except IgnoreAttempt:
                 status = None
